@@ -4,7 +4,7 @@
    (GraphOps.op: node/attacker creation, add/remove node, link, add/remove attacker, compromise/undo from either
    side, attach_attackers, analysis, pruning, label and data edits, deep copy, queries); an operation whose
    guard (GraphOps.guard: the API used as intended) fails is a no-op with outcome RBadOp. *)
-From MT Require Import Prelude Graph Apriori GraphAn GraphOps GraphInv GraphThm.
+From MT Require Import Prelude Graph Apriori GraphAn GraphOps GraphInv GraphThm GraphMirror.
 
 (* at every point an attacker lists a node as reached exactly when the node lists the attacker *)
 Theorem C11_mirror : forall ops a o,
@@ -45,6 +45,24 @@ Theorem C11_remove_clean : forall ops a,
 Proof. intros ops a s Ha. exact (remove_attacker_clean (final ops) a (reachable_WF ops) Ha). Qed.
 Print Assumptions C11_remove_clean.
 
+(* add_attacker taken as it is — any attacker object, any ids, accepted or rejected half-way (an id that no node has, after
+   some reached steps were compromised already): every (attacker, node) pair that agreed before agrees afterwards ... *)
+Theorem C11_add_attacker_any_outcome : forall s a i reached entry a' o',
+  agree (s_nh s) (s_ah s) a' o' ->
+  agree (s_nh (fst (add_attacker s a i reached entry))) (s_ah (fst (add_attacker s a i reached entry))) a' o'.
+Proof. exact add_attacker_agree. Qed.
+Print Assumptions C11_add_attacker_any_outcome.
+(* ... so in every state the machine reaches, after add_attacker of an attacker that is not in the graph and has reached
+   nothing, that attacker — added or rejected — and every attacker of the graph list exactly the nodes that list them *)
+Theorem C11_add_attacker_mirror : forall ops a i reached entry,
+  let s := final ops in
+  ~ In a (g_atts (s_g s)) -> a_reached (s_ah s a) = [] ->
+  let s' := fst (add_attacker s a i reached entry) in
+  forall a' o, In a' (g_atts (s_g s)) \/ a' = a -> In o (g_nodes (s_g s)) ->
+    (In o (a_reached (s_ah s' a')) <-> In a' (n_comp (s_nh s' o))).
+Proof. exact add_attacker_mirror. Qed.
+Print Assumptions C11_add_attacker_mirror.
+
 (* attaching: one new graph attacker per model attacker, named after it, whose entry points and
    initially reached steps are exactly the existing nodes named by the model's entry points *)
 Theorem C11_attach : forall ops name eps,
@@ -69,4 +87,10 @@ Definition ex_ops : list op :=
 Example C11_nonvacuous :
   guards_met ex_ops = true /\ g_atts (s_g (final ex_ops)) = [0] /\ a_reached (s_ah (final ex_ops) 0) = [1] /\
   n_comp (s_nh (final ex_ops) 1) = [0].
+Proof. vm_compute. auto. Qed.
+(* a rejected add: eve is to reach node 1 (id 7) and a node with id 99, which does not exist — the call fails after node 1
+   was compromised; node 1 lists eve and eve lists node 1, and eve is not in the graph *)
+Example C11_rejected_add :
+  let '(s, _, ocs) := run_then_adds (ex_ops ++ [ONewAtt "eve"]) [(2, None, [7%Z; 99%Z], [])] in
+  ocs = [RGraphException] /\ g_atts (s_g s) = [0] /\ a_reached (s_ah s 2) = [1] /\ n_comp (s_nh s 1) = [0; 2].
 Proof. vm_compute. auto. Qed.
